@@ -113,3 +113,69 @@ pub fn c12_op(req: &J) -> J {
         Err(_) => json!({"ok": false, "detail": format!("panic: {}", crate::last_panic())}),
     }
 }
+
+/// C04: a covenant that only approves when it is evaluated for input position 0, locking two coins spent together.
+pub fn c04_env(_req: &J) -> J {
+    use melstf::{verif_hooks as vh, UnsealedState};
+    use melstructs::{CoinData, CoinDataHeight, CoinID, CoinValue, Denom, NetID, Transaction, TxHash, TxKind};
+    use melvm::CovenantEnv;
+    use novasmt::{Database, InMemoryCas};
+    use tmelcrypt::HashVal;
+    let r = catch_unwind(AssertUnwindSafe(|| {
+        // LoadImm(HADDR_SPENDER_INDEX = 9); PushI 0; Eql   => true only for the input at position 0
+        let cov = Covenant::from_ops(&[OpCode::LoadImm(9), OpCode::PushI(0u8.into()), OpCode::Eql]);
+        let db = Database::new(InMemoryCas::default());
+        let mut st: UnsealedState<InMemoryCas> = crate::util::genesis(NetID::Custom02, 0, 0).realize(&db);
+        let sealed = st.clone().seal(None);
+        st = sealed.next_unsealed();
+        let mk = |n: u8| CoinID { txhash: TxHash(HashVal([n; 32])), index: 0 };
+        let cdh = CoinDataHeight { coin_data: CoinData { covhash: cov.hash(), value: CoinValue(500), denom: Denom::Mel, additional_data: Default::default() }, height: 0.into() };
+        vh::insert_coin(&mut st, mk(1), cdh.clone());
+        vh::insert_coin(&mut st, mk(2), cdh.clone());
+        let tx = Transaction {
+            kind: TxKind::Normal,
+            inputs: vec![mk(1), mk(2)],
+            outputs: vec![CoinData { covhash: cov.hash(), value: CoinValue(1000), denom: Denom::Mel, additional_data: Default::default() }],
+            fee: CoinValue(0),
+            covenants: vec![cov.to_bytes()],
+            data: Default::default(),
+            sigs: vec![],
+        };
+        let last_header = sealed.header();
+        let approvals: Vec<bool> = (0..2u8).map(|i| {
+            cov.execute(&tx, Some(CovenantEnv { parent_coinid: mk(i + 1), parent_cdh: cdh.clone(), spender_index: i, last_header }))
+                .map(|v| v.into_bool()).unwrap_or(false)
+        }).collect();
+        let accepted = st.clone().apply_tx(&tx).is_ok();
+        // a covenant that fails (stack underflow) and one that returns 0 must both refuse
+        let mut refusing_accepted = vec![];
+        for (n, ops) in [(7u8, vec![OpCode::Add]), (8u8, vec![OpCode::PushI(0u8.into())])] {
+            let bad = Covenant::from_ops(&ops);
+            let mut st2 = st.clone();
+            let cd = CoinDataHeight { coin_data: CoinData { covhash: bad.hash(), value: CoinValue(500), denom: Denom::Mel, additional_data: Default::default() }, height: 0.into() };
+            vh::insert_coin(&mut st2, mk(n), cd);
+            let tx2 = Transaction {
+                kind: TxKind::Normal,
+                inputs: vec![mk(n)],
+                outputs: vec![CoinData { covhash: cov.hash(), value: CoinValue(500), denom: Denom::Mel, additional_data: Default::default() }],
+                fee: CoinValue(0),
+                covenants: vec![bad.to_bytes()],
+                data: Default::default(),
+                sigs: vec![],
+            };
+            if st2.apply_tx(&tx2).is_ok() {
+                refusing_accepted.push(n);
+            }
+        }
+        // a coin whose covenant is not carried by the transaction
+        let mut st3 = st.clone();
+        let tx3 = Transaction { covenants: vec![], ..tx.clone() };
+        let missing_accepted = st3.apply_tx(&tx3).is_ok();
+        (accepted, approvals, refusing_accepted, missing_accepted)
+    }));
+    match r {
+        Ok((accepted, approvals, refusing, missing)) => json!({"panicked": false, "accepted": accepted, "approvals": approvals,
+            "all_inputs_approve": approvals.iter().all(|b| *b), "refusing_covenants_accepted": refusing, "missing_script_accepted": missing}),
+        Err(_) => json!({"panicked": true, "msg": crate::last_panic()}),
+    }
+}
